@@ -130,6 +130,20 @@ impl Iso2022JpDecoder {
         loop_preamble = {},
         eof = {
             match self.decoder_state {
+                Iso2022JpDecoderState::TrailByte
+                | Iso2022JpDecoderState::EscapeStart
+                | Iso2022JpDecoderState::Escape => {
+                    // The caller appends U+FFFD upon `Malformed` without
+                    // checking for space. The ESC that got here may itself
+                    // have been reported as following a malformed lead, so
+                    // no space check has necessarily happened since then.
+                    if let Space::Full(dst_written) = dest.check_space_bmp() {
+                        return (DecoderResult::OutputFull, src_consumed, dst_written);
+                    }
+                }
+                _ => {}
+            }
+            match self.decoder_state {
                 Iso2022JpDecoderState::TrailByte | Iso2022JpDecoderState::EscapeStart => {
                     self.decoder_state = self.output_state;
                     return (DecoderResult::Malformed(1, 0), src_consumed, dest.written());
